@@ -429,6 +429,14 @@ func corrPersist(r *rng, c *caseOut, n int, dir string) {
 			}
 			seed := r.word()
 			buf := r.words(6)
+			if r.chance(1, 12) {
+				// a long bitstream: the data lines of the file exceed any I/O buffer
+				buf = make([]uint64, 300+r.intn(1500))
+				for j := range buf {
+					buf[j] = r.word()
+				}
+				c.tag("persist-save-long-bitstream")
+			}
 			version := "v0.4.8"
 			if r.chance(1, 5) {
 				version = "v9.9.9"
